@@ -217,6 +217,34 @@ uint32_t __gmpq_equal(mpq_m *a, mpq_m *b) {
   return (gz_get(&a->f0) == gz_get(&b->f0) && gz_get(&a->f1) == gz_get(&b->f1)) ? 1 : 0;
 }
 uint32_t __gmpz_cmp(mpz_m *a, mpz_m *b) { gz_t x = gz_get(a), y = gz_get(b); return (uint32_t)(x < y ? -1 : (x > y ? 1 : 0)); }
+uint32_t __gmpz_cmp_si(mpz_m *a, uint64_t v) { gz_t x = gz_get(a); gz2_t y = gz_sx64(v); return (uint32_t)(x < y ? -1 : (x > y ? 1 : 0)); }
+uint32_t __gmpz_cmp_ui(mpz_m *a, uint64_t v) { gz_t x = gz_get(a); gz2_t y = gz_zx64(v); return (uint32_t)(x < y ? -1 : (x > y ? 1 : 0)); }
+/* bit operations (ipartitions_t): GMP defines them on the infinite two's complement representation, which is what the
+ * signed gz_t carries (sign-extended); bit indices must stay below GZ_BITS */
+#ifdef IR2C_SCALE
+#define GZ_BITS (IR2C_SCALE * 4 - 1)
+#else
+#define GZ_BITS 120
+#endif
+void __gmpz_and(mpz_m *r, mpz_m *a, mpz_m *b) { gz_put(r, (gz2_t)(gz_t)(gz_get(a) & gz_get(b))); }
+void __gmpz_ior(mpz_m *r, mpz_m *a, mpz_m *b) { gz_put(r, (gz2_t)(gz_t)(gz_get(a) | gz_get(b))); }
+void __gmpz_xor(mpz_m *r, mpz_m *a, mpz_m *b) { gz_put(r, (gz2_t)(gz_t)(gz_get(a) ^ gz_get(b))); }
+void __gmpz_com(mpz_m *r, mpz_m *a) { gz_put(r, -(gz2_t)gz_get(a) - 1); }
+uint32_t __gmpz_tstbit(mpz_m *a, uint64_t bit) {
+  gz_t x = gz_get(a);
+  if (bit >= GZ_BITS) return x < 0 ? 1 : 0;
+  return (uint32_t)((x >> bit) & 1);
+}
+void __gmpz_setbit(mpz_m *r, uint64_t bit) {
+  __CPROVER_assert(bit < GZ_BITS, "outside GMP-model range (bit index)");
+  __CPROVER_assume(bit < GZ_BITS);
+  gz_put(r, (gz2_t)(gz_t)(gz_get(r) | (gz_t)((gz_t)1 << bit)));
+}
+void __gmpz_clrbit(mpz_m *r, uint64_t bit) {
+  __CPROVER_assert(bit < GZ_BITS, "outside GMP-model range (bit index)");
+  __CPROVER_assume(bit < GZ_BITS);
+  gz_put(r, (gz2_t)(gz_t)(gz_get(r) & ~(gz_t)((gz_t)1 << bit)));
+}
 void __gmpz_gcd(mpz_m *r, mpz_m *a, mpz_m *b) { gz_put(r, gz_gcd(gz_get(a), gz_get(b))); }
 void __gmpz_lcm(mpz_m *r, mpz_m *a, mpz_m *b) {
   gz_t x = gz_get(a), y = gz_get(b);
